@@ -43,6 +43,14 @@ def case(draw):
     if draw(st.sampled_from([True, False])):
         spec['eqs'].append(['kk', draw(st.sampled_from(['2.0*k + 1.0', '0.5*k', 'k*k - 1.0'])), 'leaf'])
         spec['cert']['lam']['kk'] = 0.0
+    consts_ = [e for e in spec['eqs'] if e[2] == 'const']
+    if consts_ and draw(st.sampled_from([True, False])):
+        # a parameter written as a number in any literal form, used as a divisor: a constant is known from the start
+        # (its value at k=0 is the number itself), so the quotient is defined in the very first sweep of period 1
+        cn = consts_[0]
+        cn[1] = draw(st.sampled_from(['2.5e-2', '1E1', '0.5', '5e-1', '4.', '.25', '1e0', '-2.0', '1_0.0']))
+        spec['eqs'].append(['pv', '3.0 / %s + 1.0' % cn[0], 'leaf'])
+        spec['cert']['lam']['pv'] = 0.0
     spec['layout']['perm'] = None
     # the generator object may be reused: an earlier block (with a loose stated tolerance) parsed and written first
     if draw(st.sampled_from([True, False, False])):
